@@ -1,6 +1,21 @@
 //! Accessor for HandleGenerator's private state (crate::filesystem::handles::vk_handles).
 #![allow(dead_code)]
 use super::*;
+
+/// works whether the counter is a `Wrapping<u32>` (as in the repository) or a plain `u32`
+pub trait AsU32 {
+    fn as_u32(self) -> u32;
+}
+impl AsU32 for u32 {
+    fn as_u32(self) -> u32 {
+        self
+    }
+}
+impl AsU32 for core::num::Wrapping<u32> {
+    fn as_u32(self) -> u32 {
+        self.0
+    }
+}
 pub fn next_id(g: &HandleGenerator) -> u32 {
-    g.next_id.0
+    g.next_id.as_u32()
 }
